@@ -95,9 +95,13 @@ type Type struct {
 	Tags  []string
 	// ExplicitTags: emit with the !union {tag: type} syntax. Otherwise tags are derived by yardl.
 	ExplicitTags bool
-	Len          *uint64 // KVector fixed length
-	HasDims      bool    // KArray: false = dynamic number of dimensions
-	Dims         []Dim   // KArray when HasDims
+	// OpenCases: this union comes from a generic definition in which some case is a bare type
+	// parameter (set by Subst). The generated code of a generic type cannot know the argument,
+	// so whether such a union is tagged in NDJSON is left open by the harness.
+	OpenCases bool
+	Len       *uint64 // KVector fixed length
+	HasDims   bool    // KArray: false = dynamic number of dimensions
+	Dims      []Dim   // KArray when HasDims
 }
 
 func Prim(p string) *Type { return &Type{Kind: KPrim, Prim: p} }
@@ -380,6 +384,9 @@ func Subst(t *Type, bind map[string]*Type) *Type {
 	if t.Cases != nil {
 		c.Cases = make([]*Type, len(t.Cases))
 		for i, a := range t.Cases {
+			if a != nil && a.Kind == KParam {
+				c.OpenCases = true
+			}
 			c.Cases[i] = Subst(a, bind)
 		}
 	}
@@ -578,4 +585,219 @@ func (e *Env) typeOK(t *Type, seen map[string]bool) bool {
 	default:
 		return e.typeOK(t.Elem, seen) && e.typeOK(t.Key, seen)
 	}
+}
+
+// WalkInstantiated visits t and every type nested in it, following references into record
+// fields and alias bodies with generic arguments substituted (each distinct instantiation once).
+func (e *Env) WalkInstantiated(t *Type, f func(*Type)) {
+	seen := map[string]bool{}
+	var rec func(x *Type)
+	rec = func(x *Type) {
+		if x == nil {
+			return
+		}
+		f(x)
+		switch x.Kind {
+		case KRef:
+			for _, a := range x.Args {
+				rec(a)
+			}
+			d := e.Lookup(x.Ns, x.Name)
+			if d == nil || d.Kind == DEnum || d.Kind == DFlags || d.Kind == DProtocol {
+				return
+			}
+			key := e.canonSafe(x)
+			if d.Kind == DRecord {
+				key = "rec:" + x.Ns + "." + x.Name
+				for _, a := range x.Args {
+					key += "," + e.canonSafe(a)
+				}
+			}
+			if seen[key] {
+				return
+			}
+			seen[key] = true
+			b := Bind(d, x.Args)
+			DefTypes(d, func(y *Type) { rec(Subst(y, b)) })
+		default:
+			rec(x.Elem)
+			rec(x.Key)
+			for _, c := range x.Cases {
+				rec(c)
+			}
+		}
+	}
+	rec(t)
+}
+
+// ShapeSwitches are type shapes the generator can be told to avoid (cfg.Excl), each tied to a
+// known finding. The predicate sees one node of a fully instantiated type.
+var ShapeSwitches = map[string]func(e *Env, t *Type) bool{
+	// C++: std::vector<bool> cannot be (de)serialized by the shipped headers (does not compile)
+	"vector-of-bool": func(e *Env, t *Type) bool {
+		if (t.Kind == KVector && t.Len == nil) || t.Kind == KStream {
+			u := e.underlyingSafe(t.Elem)
+			return u != nil && u.Kind == KPrim && u.Prim == "bool"
+		}
+		return false
+	},
+}
+
+func init() {
+	// Python: Optional[Optional[T]] (reachable through an alias) cannot tell "present but null"
+	// from "absent": the value collapses on a round trip
+	ShapeSwitches["nested-optional-via-alias"] = func(e *Env, t *Type) bool {
+		nullable := func(x *Type) bool {
+			u := e.underlyingSafe(x)
+			return u != nil && (u.Kind == KOptional || (u.Kind == KUnion && u.HasNull()))
+		}
+		switch t.Kind {
+		case KOptional:
+			return nullable(t.Elem)
+		case KUnion:
+			// a case that is itself nullable (through an alias)
+			for _, c := range t.Cases {
+				if c != nil && nullable(c) {
+					return true
+				}
+			}
+		}
+		return false
+	}
+}
+
+func init() {
+	// Python NDJSON writer: the dtype check of structured arrays (records, optionals) rejects the
+	// aligned dtype that the Python binary reader produces
+	ShapeSwitches["array-of-struct"] = func(e *Env, t *Type) bool {
+		if t.Kind != KArray {
+			return false
+		}
+		u := e.underlyingSafe(t.Elem)
+		if u == nil {
+			return false
+		}
+		if u.Kind == KOptional {
+			return true
+		}
+		if u.Kind == KPrim && (u.Prim == "date" || u.Prim == "time" || u.Prim == "datetime") {
+			return true
+		}
+		if u.Kind == KVector && u.Len != nil {
+			if x := e.underlyingSafe(u.Elem); x != nil && x.Kind == KPrim && (x.Prim == "date" || x.Prim == "time" || x.Prim == "datetime") {
+				return true
+			}
+		}
+		if u.Kind == KRef {
+			if d := e.Lookup(u.Ns, u.Name); d != nil && d.Kind == DRecord {
+				return true
+			}
+		}
+		return false
+	}
+	// Python: a union passed directly as a generic type argument gets no usable class name
+	// (import fails with "Cannot find dtype", or the generated code refers to a missing attribute)
+	ShapeSwitches["union-as-generic-arg"] = func(e *Env, t *Type) bool {
+		if t.Kind != KRef {
+			return false
+		}
+		for _, a := range t.Args {
+			if a != nil && a.Kind == KUnion {
+				return true
+			}
+		}
+		return false
+	}
+	// NDJSON: a union holding a flags case next to a case that serializes as a number is written
+	// untagged although a flags value outside the declared symbols is written as a number
+	ShapeSwitches["union-flags-with-number"] = func(e *Env, t *Type) bool {
+		if t.Kind != KUnion {
+			return false
+		}
+		hasFlags := false
+		seen, simple := 0, true
+		for _, c := range t.Cases {
+			k := e.jsonKindsFlagsAsArray(c)
+			if k&seen != 0 {
+				simple = false
+			}
+			seen |= k
+			if c != nil {
+				if u := e.underlyingSafe(c); u != nil && u.Kind == KRef {
+					if d := e.Lookup(u.Ns, u.Name); d != nil && d.Kind == DFlags {
+						hasFlags = true
+					}
+				}
+			}
+		}
+		// written untagged (flags counted as "array" only) although a flags value outside the
+		// declared symbols is written as a number
+		return hasFlags && simple
+	}
+}
+
+// jsonKindsFlagsAsArray: JSON datatypes of a type, with flags counted as array only (bit set:
+// 1 null, 2 bool, 4 number, 8 string, 16 array, 32 object).
+func (e *Env) jsonKindsFlagsAsArray(t *Type) int {
+	if t == nil {
+		return 1
+	}
+	u := e.underlyingSafe(t)
+	if u == nil {
+		return 32
+	}
+	switch u.Kind {
+	case KPrim:
+		switch u.Prim {
+		case "bool":
+			return 2
+		case "string", "date", "time", "datetime":
+			return 8
+		case "complexfloat32", "complexfloat64":
+			return 16
+		}
+		return 4
+	case KRef:
+		d := e.Lookup(u.Ns, u.Name)
+		if d == nil {
+			return 32
+		}
+		switch d.Kind {
+		case DEnum:
+			return 8 | 4
+		case DFlags:
+			return 16
+		}
+		return 32
+	case KOptional:
+		return 1 | e.jsonKindsFlagsAsArray(u.Elem)
+	case KUnion:
+		k := 0
+		for _, c := range u.Cases {
+			k |= e.jsonKindsFlagsAsArray(c)
+		}
+		return k | 32
+	case KVector:
+		return 16
+	case KArray:
+		if u.IsFixedArray() {
+			return 16
+		}
+		return 32
+	case KMap:
+		if k := e.underlyingSafe(u.Key); k != nil && k.Kind == KPrim && k.Prim == "string" {
+			return 32
+		}
+		return 16
+	}
+	return 32
+}
+
+func (e *Env) underlyingSafe(t *Type) (u *Type) {
+	defer func() {
+		if recover() != nil {
+			u = nil
+		}
+	}()
+	return e.Underlying(t)
 }
